@@ -182,8 +182,8 @@ Qed.
     the (u, v, a) rows in this order. Theorems for all arguments; a changed operand, power, literal or comparison in
     the source breaks them.
     Still NOT proved / only by correspondence: that the numpy statements mean these readings entry by entry
-    (broadcasting, np.where semantics), sdof.absmax itself (the model's [absmax] is tied by correspondence), and
-    floating point. *)
+    (broadcasting, np.where semantics) and floating point.  sdof.absmax itself, the energy spectra and the spectrum
+    intensities (calc_asi / calc_vsi) are tied to their source text in props/Prop_C03_source.v (translator/py2coq_c03.py). *)
 From EQ Require Import gen.Gen_sdof_loop proofs.P_C03_loop.
 
 (** entry i of pseudo_response_spectra stated entirely with the generated definitions (pi2 := 2 PI) *)
